@@ -80,6 +80,7 @@ class Recorder:
         self.saved = []
         self.active = False
         self.blocked_hits = []
+        self.mismatches = []
 
     def __enter__(self):
         import importlib
@@ -101,16 +102,34 @@ class Recorder:
                 rec.blocked_hits.append(f"{module}.{name}")
                 raise BlockedResolution(f"verif harness refuses to resolve {module}.{name}")
 
+        def denotes(module, name, obj):
+            """reference resolution: `obj` must be what `<module>.<name>` denotes (same object), nothing nearby"""
+            if not (isinstance(module, str) and isinstance(name, str)):
+                return
+            if (module, name) == ("builtins", "NoneType") and obj is type(None):
+                return
+            try:
+                ref = getattr(importlib.import_module(module), name)
+            except Exception:
+                rec.mismatches.append(f"{module}.{name} does not resolve, yet the resolver returned {obj!r}"[:200])
+                return
+            if ref is not obj:
+                rec.mismatches.append(f"{module}.{name} denotes {ref!r}, the resolver returned {obj!r}"[:200])
+
         def gettype(module_name, cls_or_func):
             rec.events.append(("gettype", module_name, cls_or_func))
             guard(module_name, cls_or_func)
-            return real_gettype(module_name, cls_or_func)
+            obj = real_gettype(module_name, cls_or_func)
+            denotes(module_name, cls_or_func, obj)
+            return obj
 
         def _import_obj(module, cls_or_func, package=None):
             if not (rec.events and rec.events[-1] == ("gettype", module, cls_or_func)):
                 rec.events.append(("_import_obj", module, cls_or_func))
             guard(module, cls_or_func)
-            return real_import(module, cls_or_func, package=package)
+            obj = real_import(module, cls_or_func, package=package)
+            denotes(module, cls_or_func, obj)
+            return obj
 
         for mn in self.MODS:
             m = sys.modules.get(mn) or importlib.import_module(mn)
@@ -299,6 +318,7 @@ def impl_load(data, T):
             else:
                 out = dict(outcome="error", e=c)
     out["events"] = rec.names()
+    out["mismatches"] = list(rec.mismatches)
     out["raw_events"] = [list(map(lambda x: x if isinstance(x, (str, type(None))) else repr(x), e)) for e in rec.events]
     out["audit"] = rec.audit
     out["new_modules"] = rec.new_modules
